@@ -596,16 +596,20 @@ static inline int
 myth_mutex_timedlock_body(myth_mutex_t * mutex,
 			  const struct timespec *restrict abstime) {
   if (myth_mutex_trylock_body(mutex) == 0) {
+    MYTH_VERIF_POINT(MYTH_VP_TIMEDLOCK_TRY, mutex, 0, 0);
     return 0;
   } else {
     struct timespec tp[1];
+    MYTH_VERIF_POINT(MYTH_VP_TIMEDLOCK_TRY, mutex, 0, 1);
     while (1) {
       int err = hr_gettime(tp);
       assert(err == 0);
       if (myth_timespec_gt(tp, abstime)) return ETIMEDOUT;
       if (myth_mutex_trylock_body(mutex) == 0) {
+	MYTH_VERIF_POINT(MYTH_VP_TIMEDLOCK_TRY, mutex, 0, 0);
 	return 0;
       } else {
+	MYTH_VERIF_POINT(MYTH_VP_TIMEDLOCK_TRY, mutex, 0, 1);
 	myth_yield_ex_body(myth_yield_option_local_first);
       }
     }
